@@ -153,20 +153,20 @@ static void blk_reqs(void) {
 static void blk_crls(void) {
 	if (!vh_block_begin("crls")) return;
 	static const struct { uint8_t b[4]; size_t n; } SER[] = { { { 0x01 }, 1 }, { { 0x01, 0x02 }, 2 }, { { 0x01, 0x02, 0x03 }, 3 }, { { 0x02 }, 1 }, { { 0x01, 0x02, 0x04 }, 3 }, { { 0x00, 0x01 }, 2 }, { { 0x02, 0x01 }, 2 } };
-	for (int mask = 0; mask < 16; mask++) for (int sid = 0; sid < 2; sid++) { if (!vh_next()) continue; uint8_t rev[512]; uint8_t *rp = rev; size_t rvl = 0; time_t rd = VENV_NOW - 5000;
+	for (int mask = 0; mask < 16; mask++) for (int sid = 0; sid < 2; sid++) for (int nua = 0; nua < 3; nua++) { /* nua: nextUpdate present / absent / absent and no CRL extensions either */ if (!vh_next()) continue; uint8_t rev[512]; uint8_t *rp = rev; size_t rvl = 0; time_t rd = VENV_NOW - 5000; time_t NU = nua ? (time_t)-1 : VENV_NOW + 86400;
 		for (int i = 0; i < 4; i++) if (mask & (1 << i)) { if (x509_revoked_cert_to_der(SER[i].b, SER[i].n, rd + i, NULL, 0, &rp, &rvl) != 1) vh_harness_error("revoked_cert_to_der"); }
-		static uint8_t crl[2048]; uint8_t *p = crl; size_t cl = 0; venv_reset(mask + 50 * sid); uint8_t exts[128]; size_t el = 0; x509_crl_exts_add_crl_number(exts, &el, sizeof exts, X509_non_critical, mask + 1);
-		int r = x509_crl_sign_to_der(X509_version_v2, OID_sm2sign_with_sm3, NAME_I, NIL, VENV_NOW - 100, VENV_NOW + 86400, rvl ? rev : NULL, rvl, exts, el, &CK[1], IDS[sid].p, IDS[sid].n, &p, &cl); vh_eval(vh_mix(mask * 2 + sid + 1));
-		if (r != 1) { char key[64]; snprintf(key, sizeof key, "C15:crl:issue-refused:%s", mask ? "nonempty" : "empty"); vh_viol(key, "\"mask\":%d,\"ret\":%d", mask, r); continue; }
-		int ver, a1, a2; const uint8_t *iss, *rv, *ex, *sg; size_t il, rl2, exl, sgl; time_t tu, nu; r = x509_crl_get_details(crl, cl, &ver, &a1, &iss, &il, &tu, &nu, &rv, &rl2, &ex, &exl, &a2, &sg, &sgl); vh_eval(vh_mix(mask * 2 + sid + 101));
-		if (r != 1 || ver != X509_version_v2 || il != NIL || memcmp(iss, NAME_I, NIL) || tu != VENV_NOW - 100 || nu != VENV_NOW + 86400 || rl2 != rvl || (rvl && memcmp(rv, rev, rvl)) || exl != el || memcmp(ex, exts, el)) { vh_viol("C15:crl:field-differs", "\"mask\":%d,\"ret\":%d,\"crl\":\"%s\"", mask, r, vh_hex(crl, cl > 250 ? 250 : cl)); }
+		static uint8_t crl[2048]; uint8_t *p = crl; size_t cl = 0; venv_reset(mask + 50 * sid); uint8_t exts[128]; size_t el = 0; if (nua < 2) x509_crl_exts_add_crl_number(exts, &el, sizeof exts, X509_non_critical, mask + 1);
+		int r = x509_crl_sign_to_der(X509_version_v2, OID_sm2sign_with_sm3, NAME_I, NIL, VENV_NOW - 100, NU, rvl ? rev : NULL, rvl, el ? exts : NULL, el, &CK[1], IDS[sid].p, IDS[sid].n, &p, &cl); vh_eval(vh_mix(mask * 6 + sid * 3 + nua + 1));
+		if (r != 1) { char key[96]; snprintf(key, sizeof key, "C15:crl:issue-refused:%s%s", mask ? "nonempty" : "empty", nua ? ":without-nextUpdate" : ""); vh_viol(key, "\"mask\":%d,\"ret\":%d", mask, r); continue; }
+		int ver, a1, a2; const uint8_t *iss, *rv, *ex, *sg; size_t il, rl2, exl, sgl; time_t tu = 1111, nu = 2222 /* stale values of the caller */; r = x509_crl_get_details(crl, cl, &ver, &a1, &iss, &il, &tu, &nu, &rv, &rl2, &ex, &exl, &a2, &sg, &sgl); vh_eval(vh_mix(mask * 2 + sid + 101));
+		if (r != 1 || ver != X509_version_v2 || il != NIL || memcmp(iss, NAME_I, NIL) || tu != VENV_NOW - 100 || nu != NU || rl2 != rvl || (rvl && memcmp(rv, rev, rvl)) || exl != el || memcmp(ex, exts, el)) { vh_viol(nua && r == 1 && nu != NU ? "C15:crl:field-differs:absent-nextUpdate-reported-as-a-time" : "C15:crl:field-differs", "\"mask\":%d,\"ret\":%d,\"next_update_reported\":%lld,\"crl\":\"%s\"", mask, r, (long long)nu, vh_hex(crl, cl > 250 ? 250 : cl)); }
 		/* every serial queried against this CRL */
 		for (int q = 0; q < 7; q++) { time_t d; const uint8_t *ee; size_t eel; r = x509_crl_find_revoked_cert_by_serial_number(crl, cl, SER[q].b, SER[q].n, &d, &ee, &eel); int want = q < 4 && (mask & (1 << q)); vh_eval(vh_mix(mask * 100 + q + 201));
 			if ((r == 1) != want) { char key[128]; snprintf(key, sizeof key, "C15:crl:lookup:%s:serial=%s", r == 1 ? "reported-revoked-but-not-listed" : "listed-but-not-reported", vh_hex(SER[q].b, SER[q].n)); vh_viol(key, "\"mask\":%d,\"ret\":%d", mask, r); }
 			else if (r == 1 && d != rd + q) vh_viol("C15:crl:lookup:wrong-revocation-date", "\"mask\":%d,\"q\":%d", mask, q); }
 		r = x509_signed_verify(crl, cl, &CK[1], IDS[sid].p, IDS[sid].n); vh_eval(vh_mix(mask * 2 + sid + 301)); if (r != 1) vh_viol("C15:crl:verify-own", "\"mask\":%d", mask);
-		verify_matrix("crl", crl, cl, &CK[1], sid); alg_relabel("crl", crl, cl, &CK[1], sid); if (mask == 5 || mask == 0) bitflips("crl", crl, cl, &CK[1], sid, 1);
-		vh_sample("{\"block\":\"crls\",\"listed_mask\":%d,\"signer_id\":%d,\"crllen\":%zu}", mask, sid, cl); }
+		if (nua == 0) { verify_matrix("crl", crl, cl, &CK[1], sid); alg_relabel("crl", crl, cl, &CK[1], sid); } if ((mask == 5 || mask == 0) && nua < 2) bitflips("crl", crl, cl, &CK[1], sid, 1);
+		vh_sample("{\"block\":\"crls\",\"listed_mask\":%d,\"signer_id\":%d,\"next_update\":\"%s\",\"crllen\":%zu}", mask, sid, nua ? "absent" : "present", cl); }
 }
 /* revoked entries WITH and WITHOUT entry extensions in one list, every with/without pattern over four entries and both listing orders: each lookup must
    report exactly the entry that was supplied (date, reason code, invalidity date, or no extensions at all) -- never a neighbour's */
